@@ -485,3 +485,66 @@ def norm_of(p):
     """normaliser resolving the locals of this path (its own frame and the frames of inlined callees)"""
     raw = getattr(p, "raw", p)
     return nf.Norm(env=getattr(raw, "env", None), envs=getattr(raw, "envs", None))
+
+
+# ----- what an error prints: variant -> (literal text, displayed payloads) -----
+TEXT_FILE = os.path.join(os.path.dirname(os.path.dirname(os.path.abspath(__file__))), "oracle", "error_texts.json")
+
+
+def display_table(cfg, body, adt_path):
+    """For a `Display::fmt` of an enum: {variant name: [literal text, [displayed arguments]]}, or None with a reason.  Recognised
+    writers: write!(f, "..{}..", args) (Formatter::write_fmt of Arguments::new / from_str) and f.write_str("..")."""
+    adt = cfg.bio.adts.get(adt_path)
+    if not adt:
+        return None, "enum %s not found" % adt_path
+    paths, _ = analyse(cfg, body)
+    out = {}
+    for p in paths:
+        if p.end != "return":
+            continue
+        vidx = None
+        for g in p.guards:
+            if g[0] == "sw" and g[1] == ("discr", P(1)) and g[2] == "==":
+                vidx = g[3]
+        if vidx is None or vidx >= len(adt["variants"]):
+            return None, "a path is not selected by the variant of self: " + p.describe()[:120]
+        vname = adt["variants"][vidx]["name"]
+        t = p.ret
+        text, args = None, []
+        if is_call(t, re.compile(r"^std::fmt::Formatter::<'_>::write_str$")) and isinstance(t[2][1], tuple) and t[2][1][0] == "str":
+            text = t[2][1][1]
+        elif is_call(t, re.compile(r"^std::fmt::Formatter::<'_>::write_fmt$")):
+            a = t[2][1]
+            if is_call(a, re.compile(r"^std::fmt::Arguments::<'_>::from_str$")) and a[2][0][0] == "str":
+                text = a[2][0][1]
+            elif is_call(a, re.compile(r"^std::fmt::Arguments::<'_>::new::<")) and a[2][0][0] == "mem" and a[2][1][0] == "array":
+                # the template interleaves length-prefixed literal pieces with placeholder opcodes (>= 0x80)
+                bs, i, pieces = list(a[2][0][1]), 0, []
+                while i < len(bs):
+                    b = bs[i]
+                    if b == 0:
+                        break
+                    if b < 0x80:
+                        pieces.append(bytes(bs[i + 1:i + 1 + b]).decode("utf-8", "replace"))
+                        i += 1 + b
+                    else:
+                        pieces.append("{}")
+                        i += 1
+                text = "".join(pieces)
+                for x in a[2][1][1]:
+                    args.append(re.sub(r"\(arg1 as %s\)" % re.escape(vname), "$V", show(x)))
+        if text is None:
+            return None, "variant %s is not written by a recognised writer: %s" % (vname, show(t)[:120])
+        if vname in out and out[vname] != [text, args]:
+            return None, "variant %s is written in two different ways" % vname
+        out[vname] = [text, args]
+    return out, ""
+
+
+def frozen_texts():
+    import json
+    try:
+        with open(TEXT_FILE) as fh:
+            return json.load(fh)
+    except OSError:
+        return {}
